@@ -403,6 +403,7 @@ def run_instance(harness, name, params, *, known=(), opts=None, pinned=None):
     def run_path():
         cx = Cx(ex)
         state["cx"] = cx
+        E.cx = cx
         x = harness.declare(cx, params)
         if pinned is not None:
             for nm, kind, var, nanvar in cx.inputs:
